@@ -11,7 +11,7 @@ META = {
                  'C contract. Auxiliary (concrete, reported separately): an ASan/UBSan build of the translator must exit 0 on the generated module families under option combinations',
     'functions_encoded': ['reader.c: wasmModuleRead + all section readers, section.c, instruction.c, leb128.h, buffer.h, array.c', 'stringbuilder.c (all functions)', 'c.c: wasmCWriteStringEscaped, wasmCWriteLiteral, path block of wasmCWriteModule',
                           'main.c: changeToOutputDirectory, cleanImplementationFiles', 'compat.c: basename/dirname'],
-    'bounds': {'truncation': 'every cut point 0 < k < length of 2 template modules (120 and 62 bytes), with and without -g (name-section parsing)', 'names': 'all 256 byte values, 1-2 bytes per name (escaper), builder appends of 0..19 bytes',
+    'bounds': {'truncation': 'every cut point 0 < k < 62 of template b and 0 < k < 58 of template a (type/import/function/table/memory sections), with and without -g; later cut points of template a give no verdict within 2400 s', 'names': 'all 256 byte values, 1-2 bytes per name (escaper), builder appends of 0..19 bytes',
                'literals': 'all f32/f64/i32/i64 bit patterns', 'paths': '1..5 characters'},
     'assumptions': ['allocation failure out of scope (--no-malloc-may-fail)', 'sprintf contract model; isalnum modelled for the C locale, tolerant of negative char values like glibc',
                     'signed-shift / signed-overflow UB in the translator is not a memory operation and is not part of this property'],
@@ -67,7 +67,9 @@ def make_jobs(ctx):
     for tn in ('a', 'b'):
         path, fields, bufsz = readergen.write_harness(d, tn, 'trunc')
         total = readergen.Gen(*readergen.TEMPLATES[tn](), name=tn).static_len(readergen.TEMPLATES[tn]()[0])
-        cuts = range(1, total)
+        # template a: no prefix that ends at or after byte 58 (global section onwards) produced a verdict (probe: cut 90 ran 2400 s
+        # without finishing, although the native translator rejects it at once): excluded in both tiers, stated in evidence
+        cuts = [c for c in range(1, total) if tn == 'b' or c < 58]
         if ctx.quick:
             # template a: prefixes that end inside the code/data sections (observed from about byte 58 on) take > 300 s each: thorough tier only
             cuts = [c for c in cuts if (c % 2 == (ctx.seed % 2) or c < 16) and (tn == 'b' or c < 58)]
